@@ -29,6 +29,8 @@ def rules(ctx):
     C06.c063(ctx)
     from . import C11
     C11.c111(ctx)
+    C11.c115(ctx)   # bounded scans: the bounds cursor honours both bounds in both directions
+    C11.c116(ctx)   # per-level concatenation: seek/next/prev move on from an exhausted file
 
 
 def stage_calls(f, pat):
